@@ -40,6 +40,7 @@ type Prog struct {
 	lockReqs   map[*ssa.Function][]lockReq
 	monotone   map[string]*GuardDecl // "typeName.field"
 	fvTargets  map[string][]*ssa.Function
+	rules      []*Rule
 }
 
 func relKey(fn *ssa.Function) string {
@@ -265,6 +266,7 @@ func (p *Prog) indexSpecs() error {
 			p.monotone[qual(g.Recv)+"."+g.Field] = g
 		}
 		p.lemmas = append(p.lemmas, sf.Lemmas...)
+		p.rules = append(p.rules, sf.Rules...)
 		p.specAssumes = append(p.specAssumes, sf.Assumes...)
 	}
 	return nil
